@@ -458,7 +458,10 @@ func rulePXTag(c *Ctx) []Obligation {
 				okPairs, why = false, "value written with %"+v.Verb+" instead of Go quoting"
 				break
 			}
-			if v.Val.String() != "recv.items["+k+"]" {
+			// the value looked up under the key — or, equivalently, the value the same step of the
+			// range over the (unmodified) map yielded together with that key
+			sameEntry := strings.HasSuffix(k, "#1") && v.Val.String() == strings.TrimSuffix(k, "#1")+"#2"
+			if v.Val.String() != "recv.items["+k+"]" && !sameEntry {
 				okPairs, why = false, "value "+v.Val.String()+" is not the one stored under key "+k
 				break
 			}
@@ -494,7 +497,26 @@ func rulePXTag(c *Ctx) []Obligation {
 		sorted := false
 		for _, e := range p.Events {
 			if e.Kind == "call" && e.Fn != nil {
-				if ci, ok := e.In.(ssa.CallInstruction); ok && isSortCall(ci) && len(e.Args) > 0 && e.Args[0].HasEl && len(e.Args[0].Elems) == len(keys) {
+				allKeys := false
+				if len(e.Args) > 0 && e.Args[0].HasEl && len(e.Args[0].Elems) == len(keys) {
+					allKeys = true
+				}
+				// a slice made with the map's length and filled slot by slot
+				if len(e.Args) > 0 && e.Args[0].Op == "make" && len(e.Args[0].A) == 1 && e.Args[0].A[0].String() == "len(recv.items)" {
+					got := map[string]bool{}
+					for i := range keys {
+						if el, ok := p.Mem[fmt.Sprintf("s%d[%d]", e.Args[0].Inst, i)]; ok {
+							got[el.String()] = true
+						}
+					}
+					allKeys = len(got) == len(keys)
+					for _, k := range keys {
+						if !got[k] {
+							allKeys = false
+						}
+					}
+				}
+				if ci, ok := e.In.(ssa.CallInstruction); ok && isSortCall(ci) && allKeys {
 					if ok2, _ := sortOrderOK(c, ci); ok2 {
 						sorted = true
 					}
